@@ -49,7 +49,7 @@ def check_diff_T(sc):
             if bad == 1:
                 i = int(np.argmax(got != exp))
                 out.fail("backend_temperature", "stage %d at t=%r node %d (z=%r): backend asked for T=%r, schedule gives %r" % (k, ts, i, z[i], got[i], exp[i]))
-    out.label("T_" + sc["T"][0], sc["iterator"])
+    out.label("T_" + sc["T"][0], sc["iterator"], "T_api_" + sc.get("T_api", "model"), *(["after_prior_schedule"] if sc.get("T_prior") else []))
     out.nt(sc["T"][0] != "const" and len(stage_times) >= 3)
     return out
 
@@ -98,7 +98,7 @@ def _check_homog_T(sc, out):
             i = int(np.argmax(calls[k] != exp)) if calls[k].shape == exp.shape else 0
             out.fail("backend_temperature", "homogenization model, stage %d at t=%r node %d: provider asked for T=%r, schedule gives %r" % (k, ts, i, calls[k].ravel()[i] if calls[k].size else None, exp[i]))
             break
-    out.label("T_" + sc["T"][0], sc["iterator"], "homogenization")
+    out.label("T_" + sc["T"][0], sc["iterator"], "homogenization", "T_api_" + sc.get("T_api", "model"), *(["after_prior_schedule"] if sc.get("T_prior") else []))
     out.nt(sc["T"][0] != "const" and len(stage_times) >= 3)
     return out
 
@@ -113,11 +113,20 @@ def _sc(draw):
         total = sum(sc["durations"])
         L = sc["zlim"][1] - sc["zlim"][0]
         sc["T"] = draw(st.sampled_from([["array", [0.0, total / 3600 * 0.7], [T0, T0 + 80.0]], ["field", T0, 60.0, 30.0 / max(total, 1e-30), L]]))
+    # which entry point installs the schedule (model setters / parameter object given to the constructor / typed setters of the model's
+    # parameter object), and 0-2 other schedules set on the same model before it
+    sc["T_api"] = draw(st.sampled_from(["model", "model", "ctor", "params"]))
+    if sc["T_api"] != "ctor" and draw(st.booleans()):
+        T0 = sc["T"][1] if sc["T"][0] in ("const", "field") else sc["T"][2][0]
+        total = sum(sc["durations"])
+        L = sc["zlim"][1] - sc["zlim"][0]
+        sc["T_prior"] = [draw(st.sampled_from([["const", T0 + 25.0], ["array", [0.0, total / 3600], [T0 - 20.0, T0 + 40.0]], ["field", T0 + 10.0, -40.0, 10.0 / max(total, 1e-30), L]]))
+                         for _ in range(draw(st.integers(1, 2)))]
     return sc
 
 
 def clauses():
     return [
         Clause("diffusion_T", _sc, check_diff_T, quick=600, thorough=15000, shrink=False,
-               rule="generator: single-phase (2 in 3) and homogenization stub diffusion scenarios with constant / break-point / field T(z,t) schedules, cache off, both iterators; every backend call is compared with the schedule at the recorded stage time and node coordinate (exact); non-trivial: non-constant schedule and >= 3 stage evaluations"),
+               rule="generator: single-phase (2 in 3) and homogenization stub diffusion scenarios with constant / break-point / field T(z,t) schedules installed through the model setters, a parameter object given to the constructor or the typed setters of the model's parameter object, optionally after 1-2 other schedules on the same model, cache off, both iterators; every backend call is compared with the schedule at the recorded stage time and node coordinate (exact); non-trivial: non-constant schedule and >= 3 stage evaluations"),
     ]
